@@ -443,6 +443,78 @@ Definition ip6_serialize (l : ip6) (payload : list Z) (fix_ csum : bool) (junk :
       end
   end.
 
+(* the same with the buffer's layer list: ip6.go:139-218 SerializeTo with the list of layer types already pushed in the serialize buffer
+   (b.Layers(), an explicit argument as the junk is): when IPv6.HopByHop is set and the buffer already
+   holds an IPv6HopByHop layer (type 46: the header was serialized as a layer of its own, e.g. by
+   SerializePacket of a decoded stack) the header is NOT written again, NextHeader is not touched and
+   no jumbo length is patched (ip6.go:164-190). *)
+Definition LT_IPv6HopByHop := 46.
+Definition hbh_done (layers : list Z) : bool := existsb (fun t => t =? LT_IPv6HopByHop) layers.
+
+Definition ip6_serialize_in (layers : list Z) (l : ip6) (payload : list Z) (fix_ csum : bool) (junk : list Z)
+  : outcome (list Z) * ip6 :=
+  let jumbo := 65535 <? n6_len payload in
+  (* 145-162 *)
+  let step1 : outcome ip6 :=
+    if jumbo then
+      if fix_ then Ok (add_jumbo l)
+      else match p_hbh l with
+           | None => Err 15
+           | Some h => match get_jumbo h with
+                       | Err e => Err e | Panic s => Panic s
+                       | Ok (_, false) => Err 16
+                       | Ok (_, true) => Ok l
+                       end
+           end
+    else Ok l in
+  match step1 with
+  | Err e => (Err e, l)
+  | Panic s => (Panic s, l)
+  | Ok l1 =>
+      (* 173-190 *)
+      let step2 : outcome (list Z) * ip6 * list Z :=
+        match p_hbh l1 with
+        | None => (Ok payload, l1, junk)
+        | Some h =>
+          if hbh_done layers then (Ok payload, l1, junk) else
+            let '(r, h', junk') := ext_serialize_gen false h payload fix_ junk in
+            let l2 := set_len_next l1 (p_length l1) 0 (Some h') in   (* NextHeader "just fixed" *)
+            match r with
+            | Ok bytes =>
+                if fix_ && jumbo then
+                  match set_jumbo_len bytes with
+                  | Ok bytes' =>
+                      (* repaired: the layer's jumbo option is brought in step with the bytes *)
+                      let os := match replace_first_jumbo (n6_len bytes) (e_opts h') with
+                                | Some os' => os' | None => e_opts h' end in
+                      (Ok bytes', set_len_next l1 (p_length l1) 0
+                         (Some (mkExt (e_next h') (e_hlen h') (e_alen h') os (e_contents h') (e_payload h'))), junk')
+                  | Err e => (Err e, l2, junk')
+                  | Panic s => (Panic s, l2, junk')
+                  end
+                else (Ok bytes, l2, junk')
+            | Err e => (Err e, l2, junk')
+            | Panic s => (Panic s, l2, junk')
+            end
+        end in
+      match step2 with
+      | (Err e, l2, _) => (Err e, l2)
+      | (Panic s, l2, _) => (Panic s, l2)
+      | (Ok pl, l2, junk2) =>
+          let pLen := n6_len pl in
+          if negb jumbo && (65535 <? pLen) then (Err 17, l2)
+          else
+            let region := fst (n6_take 40 junk2) in
+            let len' := if fix_ then (if jumbo then 0 else u16 pLen) else p_length l2 in
+            let l3 := set_len_next l2 len' (p_next l2) (p_hbh l2) in
+            (* AddressTo16 212-214, after the first 8 octets were written *)
+            if negb (n6_len (p_src l3) =? 16) then (Err 18, l3)
+            else if negb (n6_len (p_dst l3) =? 16) then (Err 18, l3)
+            else (Ok (ip6_header l3 region ++ pl), l3)
+      end
+  end.
+
+
 (* renderers: LayerString/LayerDump are reflective and total (net.IP.String, IPProtocol.String,
    nested structs and slices of non-nil pointers).  LayerGoString (packet.go, repaired) is total; the
    unchanged one dereferenced the nil HopByHop pointer.  NetworkFlow() calls gopacket.NewFlow which
